@@ -41,7 +41,7 @@ type world struct {
 
 var (
 	txKinds  = []string{"invoke3", "invoke1", "l1handler", "declare3", "deployaccount3", "invoke0"}
-	versions = []string{"0.13.2", "0.13.4", "0.14.0", "0.14.1"}
+	versions = []string{"0.13.2", "0.13.4", "0.14.0", "0.14.1", "0.13.1"} // the last one: hash does not commit to the state diff
 	addrs    = []uint64{0x100, 0x101, 0x102}
 )
 
@@ -129,6 +129,28 @@ func (w *world) appendBlock(n *chainkit.Node) (*block, error) {
 
 func (w *world) chain(ver int) []int { return w.versions[ver-1] }
 
+// oldFormat: the block's hash (pre-0.13.2) commits neither to its state diff nor to its receipts
+func (w *world) oldFormat(tag int) bool { return w.blocks[tag].built.Block.ProtocolVersion == "0.13.1" }
+
+// selfCheck makes sure the answer kinds are what the specification says they are: every "bad" copy fails
+// SanityCheckNewHeight, the forged copy passes it.
+func (w *world) selfCheck() error {
+	for tag, b := range w.blocks {
+		kinds := append([]string{}, corruptions...)
+		for _, c := range append(kinds, "", forgery) {
+			if w.oldFormat(tag) && (c == "receipt" || c == "diff") {
+				continue
+			}
+			cb := w.committed(tag, c)
+			_, err := w.tip.BC.SanityCheckNewHeight(cb.Block, cb.StateUpdate, cb.NewClasses)
+			if pass := c == "" || c == forgery; pass != (err == nil) {
+				return fmt.Errorf("answer kind %q of block %d (%s): SanityCheckNewHeight says %v", c, b.height, b.built.Block.ProtocolVersion, err)
+			}
+		}
+	}
+	return nil
+}
+
 func (w *world) has(ver int, tag int) bool {
 	for _, t := range w.chain(ver) {
 		if t == tag {
@@ -140,6 +162,12 @@ func (w *world) has(ver int, tag int) bool {
 
 // Corruption kinds: a deep-enough copy of the block with exactly one field altered.
 var corruptions = []string{"hash", "parent", "timestamp", "receipt", "diff", "root"}
+
+// forgery: the state diff is altered and the block hash recomputed over the altered block, so that
+// header, hash and claimed roots are mutually consistent (for a pre-0.13.2 block the hash does not
+// commit to the diff and stays as it is). SanityCheckNewHeight accepts such a block; only the
+// recomputation of the state root in Store can reject it.
+const forgery = "diff-resealed"
 
 // specCorr maps a corruption kind to what the revert loop (which looks at Hash and ParentHash of an
 // unverified block only) can see of it.
@@ -180,7 +208,7 @@ func (w *world) committed(tag int, corr string) jsync.CommittedBlock {
 		rc.Fee = bump(rc.Fee)
 		rcs[0] = &rc
 		blk.Receipts = rcs
-	case "diff":
+	case "diff", forgery:
 		sd := *su.StateDiff
 		sd.StorageDiffs = map[felt.Felt]map[felt.Felt]*felt.Felt{}
 		first := true
@@ -197,6 +225,14 @@ func (w *world) committed(tag int, corr string) jsync.CommittedBlock {
 			sd.StorageDiffs[a] = nm
 		}
 		su.StateDiff = &sd
+		if corr == forgery {
+			h, _, err := core.BlockHash(blk, &sd, chainkit.Network, nil, core.DeprecatedTrieBackend)
+			if err != nil {
+				panic("reseal: " + err.Error())
+			}
+			hc.Hash = &h
+			su.BlockHash = &h
+		}
 	case "root":
 		su.NewRoot = bump(su.NewRoot)
 	default:
